@@ -71,10 +71,14 @@ pub fn compile(model: &MNode, dump: &Dump, infosets: &[Vec<(&String, &[String])>
         names: &[Vec<String>; 2],
         actions: &[Vec<Vec<String>>; 2],
         cp: &mut (Vec<Option<Vec<f64>>>, Part),
+        d_root_probs: &[Vec<f64>],
     ) -> Result<RN, String> {
+        fn dump_probs_of(all: &[Vec<f64>], i: usize) -> &[f64] {
+            all.get(i).map(|v| v.as_slice()).unwrap_or(&[])
+        }
         match m {
-            MNode::C { outs, .. } if outs.len() == 1 => walk(&outs[0].2, d, names, actions, cp),
-            MNode::P { acts, .. } if acts.len() == 1 => walk(&acts[0].1, d, names, actions, cp),
+            MNode::C { outs, .. } if outs.len() == 1 => walk(&outs[0].2, d, names, actions, cp, d_root_probs),
+            MNode::P { acts, .. } if acts.len() == 1 => walk(&acts[0].1, d, names, actions, cp, d_root_probs),
             MNode::T(x) => match d {
                 // the Gambit route computes its payoffs with a few more roundings than the model
                 DumpNode::Terminal(y) if x.to_bits() == y.to_bits() || (x - y).abs() <= 1e-9 * (1.0 + x.abs()) => Ok(RN::T(*x)),
@@ -101,6 +105,9 @@ pub fn compile(model: &MNode, dump: &Dump, infosets: &[Vec<(&String, &[String])>
                     if *infoset >= cp.0.len() {
                         return Err("chance infoset index out of range".into());
                     }
+                    if probs.len() != dump_probs_of(d_root_probs, *infoset).len() || probs.iter().zip(dump_probs_of(d_root_probs, *infoset)).any(|(a, b)| (a - b).abs() > 1e-9) {
+                        return Err(format!("chance infoset {infoset}: the model declares probabilities {probs:?}, the library holds {:?}", dump_probs_of(d_root_probs, *infoset)));
+                    }
                     match &cp.0[*infoset] {
                         None => cp.0[*infoset] = Some(probs),
                         Some(old) => {
@@ -110,7 +117,7 @@ pub fn compile(model: &MNode, dump: &Dump, infosets: &[Vec<(&String, &[String])>
                         }
                     }
                     let kids: Result<Vec<RN>, String> =
-                        outs.iter().zip(outcomes).map(|((_, _, c), dc)| walk(c, dc, names, actions, cp)).collect();
+                        outs.iter().zip(outcomes).map(|((_, _, c), dc)| walk(c, dc, names, actions, cp, d_root_probs)).collect();
                     Ok(RN::C(*infoset, kids?))
                 }
                 _ => Err("model chance node vs library node mismatch".into()),
@@ -126,7 +133,7 @@ pub fn compile(model: &MNode, dump: &Dump, infosets: &[Vec<(&String, &[String])>
                         return Err(format!("action order mismatch at {info}"));
                     }
                     let kids: Result<Vec<RN>, String> =
-                        acts.iter().zip(dacts).map(|((_, c), dc)| walk(c, dc, names, actions, cp)).collect();
+                        acts.iter().zip(dacts).map(|((_, c), dc)| walk(c, dc, names, actions, cp, d_root_probs)).collect();
                     Ok(RN::P(*player, *infoset, kids?))
                 }
                 _ => Err(format!("model decision node {info} vs library node mismatch")),
@@ -134,7 +141,7 @@ pub fn compile(model: &MNode, dump: &Dump, infosets: &[Vec<(&String, &[String])>
         }
     }
     let mut state = (chance_probs, Part::default());
-    let root = walk(model, &dump.root, &names, &actions, &mut state)?;
+    let root = walk(model, &dump.root, &names, &actions, &mut state, &dump.chance_probs)?;
     let chance_probs: Vec<Vec<f64>> = state.0.into_iter().map(|p| p.unwrap_or_default()).collect();
     let mut singles: [Vec<(String, String)>; 2] = Default::default();
     for (p, infos) in model.infosets().iter().enumerate() {
